@@ -113,6 +113,20 @@ def check_store(case, rec, _store=None):
             except Exception as e:
                 rec.fail("PandasStore()", f"raised {type(e).__name__}: {str(e)[:200]}", raised=True, exc=type(e).__name__)
                 return
+    # what each (stream, module, test) is expected to hold, from direct calls on the window rows
+    direct = {}
+    for c in case["contexts"]:
+        mask = sg.row_mask(tbl, c.get("window"))
+        for sid, entries in c["streams"].items():
+            for mod, test, kw in entries:
+                fl = sg.direct_call(tbl, mask, sid, mod, test, kw)
+                if fl is None:
+                    continue
+                colv = direct.setdefault((sid, mod, test), [None] * n)
+                it = iter(fl)
+                for i, m in enumerate(mask):
+                    if m:
+                        colv[i] = next(it)
     # ---- model of the expected columns from the collected results themselves ------------------------
     def passes(cr):
         keep = inc is None or (cr.function in inc or cr.stream_id in inc or cr.test in inc)
@@ -172,6 +186,11 @@ def check_store(case, rec, _store=None):
             continue
         cr = crs[0]
         want_d, want_m = np.ma.getdata(cr.results), np.ma.getmaskarray(cr.results)
+        # independent of the collecting step: the scatter of the direct calls over the (disjoint) windows
+        ind = direct.get((cr.stream_id, cr.package, cr.test))
+        if ind is not None and len(ind) == n:
+            want_d = np.array([0 if v is None else v for v in ind])
+            want_m = np.array([v is None for v in ind], dtype=bool)
         series = df[col]
         for i in range(n):
             v = series.iloc[i]
@@ -181,7 +200,7 @@ def check_store(case, rec, _store=None):
                     rec.fail(site, f"column {col}: row {i} was not evaluated but holds {v!r}", row=i, **info)
                     break
             elif isnull or sint(v) != sint(want_d[i]):
-                rec.fail(site, f"column {col}: row {i} should hold flag {int(want_d[i])}, holds {v!r}", row=i, **info)
+                rec.fail(site, f"column {col}: row {i} should hold flag {sint(want_d[i])}, holds {v!r}", row=i, **info)
                 break
     # aggregate column
     agg_col = None
